@@ -68,6 +68,14 @@ func (n *LocalNode) stabilize() error {
 		succList = succList[1:]
 	}
 
+	if len(succList) == 0 {
+		// every successor we knew is gone (e.g. a stale round installed a list whose only
+		// entry has since left): fall back to ourselves, so that the next round re-learns
+		// the ring through our predecessor instead of staying without a successor forever
+		succList = chord.MakeSuccListByID(n, nil, chord.ExtendedSuccessorEntries)
+		modified = true
+	}
+
 	n.lastStabilized.Store(time.Now())
 
 	listHash := n.hash(succList)
